@@ -159,10 +159,12 @@ def build(pattern_text, flags, atoms):
             return t
         if op is sre_c.AT:
             t = nfa.new()
-            if av is sre_c.AT_BEGINNING:
+            if av in (sre_c.AT_BEGINNING, sre_c.AT_BEGINNING_STRING):
                 nfa.eps.append((s, t, 'B'))
             elif av is sre_c.AT_END:
-                nfa.eps.append((s, t, 'E'))
+                nfa.eps.append((s, t, 'E'))          # `$`: at the end, or just before a final newline
+            elif av is sre_c.AT_END_STRING:
+                nfa.eps.append((s, t, 'Z'))          # `\Z`: at the very end only
             else:
                 raise MachineryError('unsupported anchor %s' % av)
             return t
@@ -198,7 +200,7 @@ def eps_free(nfa, start, final):
     for a, ai, b in nfa.sym:
         symout.setdefault(a, []).append((ai, b))
     # END edges must not be followed by consuming nodes
-    after_end = closure(nfa, [b for a, b, k in nfa.eps if k == 'E'], ('', 'E', 'B'))
+    after_end = closure(nfa, [b for a, b, k in nfa.eps if k in ('E', 'Z')], ('', 'E', 'Z', 'B'))
     if any(q in symout for q in after_end):
         raise MachineryError('pattern consumes input after $: not supported')
     kernel = [start] + sorted({b for _, _, b in nfa.sym})
@@ -207,13 +209,16 @@ def eps_free(nfa, start, final):
     ef.n = len(kernel)
     ef.delta = {}
     ef.fin_noend = set()
-    ef.fin_end = set()
+    ef.fin_end = set()       # accepting if the string ends here (`$` or `\Z` satisfied)
+    ef.fin_endnl = set()     # accepting if exactly one newline follows and ends the string (`$` only)
     for q in kernel:
         cl = closure(nfa, [q], ('', 'B') if q == start else ('',))
         if final in cl:
             ef.fin_noend.add(index[q])
-        if final in closure(nfa, cl, ('', 'E')):
+        if final in closure(nfa, cl, ('', 'E', 'Z')):
             ef.fin_end.add(index[q])
+        if final in closure(nfa, cl, ('', 'E')):
+            ef.fin_endnl.add(index[q])
         d = {}
         for x in cl:
             for ai, b in symout.get(x, ()):
@@ -313,6 +318,7 @@ def tla_module(tr, modname='EventCodesNFA'):
            'NStates == <<%s>>' % ', '.join(str(tr['nfas'][n].n) for n in names),
            'FinNoEnd == <<%s>>' % ', '.join('{%s}' % ', '.join(map(str, sorted(tr['nfas'][n].fin_noend))) for n in names),
            'FinEnd == <<%s>>' % ', '.join('{%s}' % ', '.join(map(str, sorted(tr['nfas'][n].fin_end))) for n in names),
+           'FinEndNL == <<%s>>' % ', '.join('{%s}' % ', '.join(map(str, sorted(tr['nfas'][n].fin_endnl))) for n in names),
            'OtherClass == %d' % tr['other'],
            'ClassRanges == <<%s>>' % ', '.join('<<%d, %d, %d>>' % r for r in class_ranges(tr)),
            '\\* Delta[p][q][c] = set of successor states of state q of pattern p on class c',
@@ -355,7 +361,7 @@ def simulate(tr, name, classes_seq):
     prev_end = False
     last_nl = False
     for c in classes_seq:
-        prev_end = bool(live & ef.fin_end)
+        prev_end = bool(live & ef.fin_endnl)
         live = set().union(*[ef.cdelta.get(q, {}).get(c, set()) for q in live]) if live else set()
         sticky = sticky or bool(live & ef.fin_noend)
         last_nl = (c == tr['nl'])
